@@ -40,6 +40,8 @@ type Case struct {
 	User     string `json:"user"`
 	Password string `json:"password"`
 	Config   bool   `json:"config"` // an ssh config file is given
+	// V6: the server listens on, and the driver is pointed at, the IPv6 loopback address ::1
+	V6 bool `json:"v6,omitempty"`
 }
 
 var khKinds = []string{"pq-right", "pq-wrong", "bare-right", "bare-wrong", "hashed-pq-right", "hashed-pq-wrong", "otherhost-right", "comment", "garbage"}
@@ -101,6 +103,7 @@ func genBase(t *rapid.T) Case {
 		User:       "u" + rapid.StringMatching(`[a-zA-Z0-9._\-]{2,8}`).Draw(t, "user"),
 		Password:   "Pw-" + rapid.StringMatching(`[a-zA-Z0-9]{6,12}`).Draw(t, "password"),
 		Config:     rapid.Bool().Draw(t, "config"),
+		V6:         rapid.IntRange(0, 3).Draw(t, "v6") == 0,
 	}
 }
 
@@ -120,8 +123,17 @@ func run(c Case) ev.Verdict {
 
 	defer os.RemoveAll(dir)
 
-	srv, err := sim.NewSSHServer()
+	host := "127.0.0.1"
+	if c.V6 {
+		host = "::1"
+	}
+
+	srv, err := sim.NewSSHServerOn(host)
 	if err != nil {
+		if c.V6 {
+			return ev.Verdict{OK: true, Infeasible: true, Classes: []string{"no-ipv6-loopback"}}
+		}
+
 		return ev.Verdict{OK: false, Msg: "INFRA: ssh server: " + err.Error()}
 	}
 
@@ -165,7 +177,7 @@ func run(c Case) ev.Verdict {
 	case "has":
 		_ = os.WriteFile(khPath, []byte(srv.KnownHostsLine()+"\n"), 0o600)
 	case "other":
-		other, oerr := sim.NewSSHServer()
+		other, oerr := sim.NewSSHServerOn(host)
 		if oerr != nil {
 			return ev.Verdict{OK: false, Msg: "INFRA: " + oerr.Error()}
 		}
@@ -184,7 +196,7 @@ func run(c Case) ev.Verdict {
 
 		right := strings.TrimSpace(string(ssh.MarshalAuthorizedKey(srv.HostKey.PublicKey())))
 		wrong := strings.TrimSpace(string(ssh.MarshalAuthorizedKey(otherPub)))
-		pq := fmt.Sprintf("[127.0.0.1]:%d", srv.Port)
+		pq := fmt.Sprintf("[%s]:%d", host, srv.Port)
 
 		var sb strings.Builder
 
@@ -200,7 +212,7 @@ func run(c Case) ev.Verdict {
 			case strings.HasPrefix(e, "pq-"):
 				sb.WriteString(pq + " " + key + "\n")
 			case strings.HasPrefix(e, "bare-"):
-				sb.WriteString("127.0.0.1 " + key + "\n")
+				sb.WriteString(host + " " + key + "\n")
 			case strings.HasPrefix(e, "hashed-pq-"):
 				sb.WriteString(knownhosts.HashHostname(pq) + " " + key + "\n")
 			case strings.HasPrefix(e, "otherhost-"):
@@ -253,7 +265,7 @@ func run(c Case) ev.Verdict {
 
 	newSession := func() (*session, error) {
 		if c.Netconf {
-			nd, nerr := netconf.NewDriver("127.0.0.1", opts...)
+			nd, nerr := netconf.NewDriver(host, opts...)
 			if nerr != nil {
 				return nil, nerr
 			}
@@ -261,7 +273,7 @@ func run(c Case) ev.Verdict {
 			return &session{open: nd.Open, close: nd.Close}, nil
 		}
 
-		gd, gerr := generic.NewDriver("127.0.0.1", opts...)
+		gd, gerr := generic.NewDriver(host, opts...)
 		if gerr != nil {
 			return nil, gerr
 		}
@@ -376,7 +388,7 @@ func run(c Case) ev.Verdict {
 		_, otherPub, kerr := sim.GenClientKey()
 		if kerr == nil {
 			wrong := strings.TrimSpace(string(ssh.MarshalAuthorizedKey(otherPub)))
-			_ = os.WriteFile(khPath, []byte(fmt.Sprintf("[127.0.0.1]:%d %s\n", srv.Port, wrong)), 0o600)
+			_ = os.WriteFile(khPath, []byte(fmt.Sprintf("[%s]:%d %s\n", host, srv.Port, wrong)), 0o600)
 
 			d2, derr := newSession()
 			if derr != nil {
